@@ -61,6 +61,22 @@ def resEq : Except String V → Except String V → Bool
   | .error a, .error b => a == b
   | _, _ => false
 
+/-- the same canonical form on encoded values (call logs): `{"set":[…]}` / `{"fs":[…]}` sorted -/
+partial def canonJson : Json → Json
+  | .arr a => .arr (a.map canonJson)
+  | .obj kvs =>
+    let kvs' := kvs.toList.map (fun (k, v) =>
+      let v' := canonJson v
+      (k, if k == "set" || k == "fs" then
+            (match v' with
+             | .arr a => Json.arr (a.qsort (fun x y => x.compress < y.compress))
+             | o => o)
+          else v'))
+    Json.mkObj kvs'
+  | j => j
+
+def logText (js : List Json) : String := (Json.arr (js.map canonJson).toArray).compress
+
 def outOfDomain : Except String V → Bool
   | .error c => c == "Unsupported" || c == "OutOfFuel"
   | _ => false
